@@ -103,6 +103,27 @@ theorem Ext_cons {all : List String} {te te' : C.TyEnv} (i : String) (t : Ty) (h
   · subst hxi; left; rw [lookup_cons_eq]; rfl
   · rw [lookup_cons_ne _ _ hxi] at hx ⊢; exact h.2 x hx
 
+theorem callRetOk_sub {te te' te1 : C.TyEnv} (hs : Sub te te') {y : Option String} {ret : Option Expr}
+    (h : callRetOk te te1 y ret = true) : callRetOk te' te1 y ret = true :=
+  match y, ret, h with
+  | none, none, _ => rfl
+  | none, some _, h => h
+  | some y, some e, h => by
+    simp only [callRetOk, Bool.and_eq_true, beq_iff_eq] at h ⊢
+    exact ⟨h.1, hs _ _ h.2⟩
+  | some _, none, h => by simp [callRetOk] at h
+
+theorem callSiteOk_of_ok {te' te1 : C.TyEnv} {ps : List (String × Ty)} {y : Option String} {ret : Option Expr} {args : List Expr}
+    (hty : args.map (inferTy te') = ps.map (·.2)) (hr : callRetOk te' te1 y ret = true) :
+    callSiteOk te' ps y ret (retTy te1 ret) args = true :=
+  match y, ret, hr with
+  | none, none, _ => by simp [callSiteOk, hty]
+  | none, some _, _ => by simp [callSiteOk, hty]
+  | some y, some e, hr => by
+    simp only [callRetOk, Bool.and_eq_true, beq_iff_eq] at hr
+    simp [callSiteOk, hty, retTy, hr.2]
+  | some _, none, hr => by simp [callRetOk] at hr
+
 theorem okNested_ext {all : List String} {te te' : C.TyEnv} (hext : Ext all te te') {s : Stmt}
     (h : s.okNested all te = true) : s.okNested all te' = true := by
   induction s generalizing te te' with
@@ -150,6 +171,18 @@ theorem okNested_ext {all : List String} {te te' : C.TyEnv} (hext : Ext all te t
     simp only [Stmt.okNested] at h ⊢
     exact okCond_sub hext.1 h
   | brk => rfl
+  | call y g ps ls rt body ret args _ =>
+    simp only [Stmt.okNested, Bool.and_eq_true, beq_iff_eq, List.all_eq_true] at h ⊢
+    obtain ⟨⟨⟨hwt, hty⟩, hshape⟩, hbody⟩ := h
+    refine ⟨⟨⟨fun e he => (wt_sub hext.1 e (hwt e he)).1, ?_⟩, hshape⟩, ?_⟩
+    · rw [← hty]
+      exact List.map_congr_left (fun e he => (wt_sub hext.1 e (hwt e he)).2)
+    · cases hfd : funDecls ps body with
+      | none => rw [hfd] at hbody; cases hbody
+      | some te1 =>
+        rw [hfd] at hbody
+        simp only [Bool.and_eq_true] at hbody ⊢
+        exact ⟨hbody.1, callRetOk_sub hext.1 hbody.2⟩
 
 theorem trNested_ext {all : List String} {te te' : C.TyEnv} {m : Bool} {d : Nat} {s s' : Stmt} (hs : Sub te te')
     (hok : s.okNested all te' = true) (h : trNested te m d s = .ok s') : trNested te' m d s = .ok s' := by
@@ -206,6 +239,24 @@ theorem trNested_ext {all : List String} {te te' : C.TyEnv} {m : Bool} {d : Nat}
   | write e => rw [trNested] at h ⊢; exact h
   | sleep e => rw [trNested] at h ⊢; exact h
   | brk => rw [trNested] at h ⊢; exact h
+  | call y g ps ls rt body ret args _ =>
+    simp only [Stmt.okNested, Bool.and_eq_true, beq_iff_eq, List.all_eq_true] at hok
+    obtain ⟨⟨⟨hwt, hty⟩, hshape⟩, hbody⟩ := hok
+    rw [trNested, if_pos hshape] at h ⊢
+    cases hfd : funDecls ps body with
+    | none => rw [hfd] at h; cases h
+    | some te1 =>
+      rw [hfd] at h hbody
+      simp only [Bool.and_eq_true] at h hbody ⊢
+      obtain ⟨body', hb', h⟩ := bind_ok h
+      rw [hb', ok_bind]
+      split at h
+      · rename_i hc
+        cases h
+        have hc' : (callSiteOk te' ps y ret (retTy te1 ret) args = true ∧ funCallsStable ps body te1 = true) :=
+          ⟨callSiteOk_of_ok hty hbody.2, hc.2⟩
+        rw [if_pos hc']; rfl
+      · cases h
 
 /-! ### name-free expressions in C -/
 
